@@ -114,27 +114,33 @@ async def operator(
     It is effectively :func:`spawn_tasks` + :func:`run_tasks` with some safety.
     """
     existing_tasks = await aiotasks.all_tasks()
-    operator_tasks = await spawn_tasks(
-        lifecycle=lifecycle,
-        indexers=indexers,
-        registry=registry,
-        settings=settings,
-        memories=memories,
-        insights=insights,
-        identity=identity,
-        standalone=standalone,
-        clusterwide=clusterwide,
-        namespaces=namespaces,
-        namespace=namespace,
-        priority=priority,
-        peering_name=peering_name,
-        liveness_endpoint=liveness_endpoint,
-        stop_flag=stop_flag,
-        ready_flag=ready_flag,
-        vault=vault,
-        memo=memo,
-        _command=_command,
-    )
+    try:
+        operator_tasks = await spawn_tasks(
+            lifecycle=lifecycle,
+            indexers=indexers,
+            registry=registry,
+            settings=settings,
+            memories=memories,
+            insights=insights,
+            identity=identity,
+            standalone=standalone,
+            clusterwide=clusterwide,
+            namespaces=namespaces,
+            namespace=namespace,
+            priority=priority,
+            peering_name=peering_name,
+            liveness_endpoint=liveness_endpoint,
+            stop_flag=stop_flag,
+            ready_flag=ready_flag,
+            vault=vault,
+            memo=memo,
+            _command=_command,
+        )
+    except asyncio.CancelledError:
+        # If cancelled while spawning, the root tasks are stopped there. Sweep their leftovers here.
+        hung_tasks = await aiotasks.all_tasks(ignored=existing_tasks)
+        await aiotasks.stop(hung_tasks, title="Hung", logger=logger, cancelled=True, interval=1)
+        raise
     await run_tasks(operator_tasks, ignored=existing_tasks)
 
 
@@ -347,7 +353,13 @@ async def spawn_tasks(
                                             event_queue=event_queue))))
 
     # Ensure that all guarded tasks got control for a moment to enter the guard.
-    await asyncio.sleep(0)
+    # If cancelled right here, stop the tasks, or they will run on as a headless operator:
+    # nobody will ever get them --- they are only returned from here --- and so nobody will stop them.
+    try:
+        await asyncio.sleep(0)
+    except asyncio.CancelledError:
+        await aiotasks.stop(tasks, title="Root", logger=logger, cancelled=True, interval=10)
+        raise
 
     # On Ctrl+C or pod termination, cancel all tasks gracefully.
     if threading.current_thread() is threading.main_thread():
